@@ -424,6 +424,7 @@ impl<T, S: Status, A: Clone + Allocator> RawTable<T, S, A> {
     #[inline]
     pub fn reset_no_drop(&mut self) {
         self.len = 0;
+        self.free = 0;
 
         #[cfg(any(feature = "allocator-api2", feature = "nightly"))]
         let empty = Vec::new_in(Box::allocator(&self.data).clone());
